@@ -510,6 +510,9 @@ def write_meta_data(md, md_file):
             if isinstance(val, float):
                 if val.is_integer():
                     val = int(val)
+                else:
+                    # positional notation: read_meta_data does not parse exponents (1e-05) back as a number
+                    val = np.format_float_positional(val)
             fid.write(f"{key}={val}\n")
 
 
